@@ -104,8 +104,13 @@ def run(c):
     sim = {}
     def job_sim():
         sim["res"] = c.tlc(sd, "MC_X03", "MC_X03_sim", workers=1, simulate="file=beh,num=%d" % nsim, depth=8, timeout=1200)
-    with ThreadPoolExecutor(max_workers=3) as ex:
-        futs = [ex.submit(job_sim),
+    def job_build():
+        res = c.tlc(sd, "MC_X03_build", "MC_X03_build", workers=1, timeout=600)
+        if not res.clean: raise Infra("build-case generator failed:\n" + res.out[-2000:])
+        sim["built"] = [json.loads(json.loads(ln)) for ln in res.printed if ln.startswith('"{')]
+        c.cov["states"] += res.distinct; c.cov["transitions"] += res.generated
+    with ThreadPoolExecutor(max_workers=4) as ex:
+        futs = [ex.submit(job_sim), ex.submit(job_build),
                 ex.submit(expect_violation, c, sd, "MC_X03", "MC_X03_neg1", "XNeverOpen", "malformed element contents reach the readers and read as \"open\" (XTotal / XOwn are not vacuous on them)"),
                 ex.submit(expect_violation, c, sd, "MC_X03", "MC_X03_neg2", "XNeverRefused", "cases whose length is out of the element's bounds reach the decoder and are refused")]
         for f in futs: f.result()
@@ -136,12 +141,17 @@ def run(c):
     acc = {}
     for x in bases:
         if x["ok"]: acc.setdefault(x["m"], []).append(x["inp"])
+    by_len = {}
+    for m, pool in acc.items():
+        for a in pool: by_len.setdefault((m, len(a)), []).append(a)
     def alt_for(m, inp):
-        pool = acc.get(m) or []
-        for _ in range(4):
-            if not pool: break
-            a = rng.choice(pool)
-            if a != inp: return a
+        """a second, different message of the same type: of the same length when there is one (same shape, other contents)"""
+        pools = ([by_len.get((m, len(inp))) or []] if inp is not None else []) + [acc.get(m) or []]
+        for pool in pools:
+            for _ in range(4):
+                if not pool: break
+                a = rng.choice(pool)
+                if a != inp: return a
         return []
     for x in bases: x["alt"] = alt_for(x["m"], x["inp"])
     cases = [dict(src=x["src"], inp=x["inp"], alt=x["alt"]) for x in bases]
@@ -152,7 +162,12 @@ def run(c):
             k = tuple(x["inp"][:i])
             if k in seen: continue
             seen.add(k); cases.append(dict(src="prefix", inp=x["inp"][:i], alt=x["alt"])); ncut += 1
-    c.cov["inputs"] = dict(generated_states=len(gen), simulated_walks=len(behs), walk_states=nwalk, repository_samples=nsamp, prefixes=ncut)
+    if len(sim["built"]) < 100:
+        raise Infra("MC_X03_build printed too few cases (%d)" % len(sim["built"]))
+    for b in sim["built"]:                                                              # messages built with the real encoders
+        cases.append(dict(k="build", src="built", b=b["b"], alt=alt_for(b["b"]["m"], None)))
+    c.cov["inputs"] = dict(generated_states=len(gen), simulated_walks=len(behs), walk_states=nwalk, repository_samples=nsamp, prefixes=ncut,
+                           built_with_the_real_encoders=len(sim["built"]))
 
     # ------------------------------------------------------------------ stage C: the real code
     drv = c.build_driver("received")
@@ -170,6 +185,7 @@ def run(c):
         j = idx
         while '"src":"inner"' in events[j][:40] and j > 0: j -= 1
         e = json.loads(events[j])
+        if e["op"] == "Built": return cases[e["id"]]
         alt = cases[e["id"]]["alt"] if j < len(ev1) else bases[e["id"] // per]["alt"]
         return dict(src=e["src"], inp=e["inp"], alt=alt)
     per_msg, per_src, calls = {}, {}, 0
@@ -199,15 +215,28 @@ def run(c):
         return (op, cls, what, dict(case=root_case(idx), message=msg, reading=field,
                                     how="harness/cmd/received replay [case] out.ndjson; validate out.ndjson with spec/trace/Trace_X03"))
 
+    def history(idx, k):
+        """the root cases of the k events that the same driver process handled before event idx (its own included, last)"""
+        lo, hi = (0, len(ev1)) if idx < len(ev1) else (len(ev1), len(events))
+        out, j = [], idx
+        while j >= lo and len(out) < k:
+            if '"src":"inner"' not in events[j][:40]: out.append(root_case(j))
+            j -= 1
+        return list(reversed(out))
+
     def confirm(idx, t):
-        p2 = os.path.join(c.scratch, "confirm.json"); json.dump([root_case(idx)], open(p2, "w"))
-        o3 = os.path.join(c.scratch, "confirm.ndjson")
-        c.run_driver(drv, ["replay", p2, o3])
-        evs = read_ndjson(o3)
-        n0 = c.cov["traces_validated_against_impl"]
-        again = c.validate("Trace_X03", evs, shards=1)
-        c.cov["traces_validated_against_impl"] = n0
-        return any(a[1][2:5] == t[2:5] for a in again)
+        """reproduce in a fresh driver process: the case alone; if that does not show it, after the cases that preceded it in the
+        same process (a reading may depend on what the library kept from EARLIER messages)"""
+        for hist in ([root_case(idx)], history(idx, 60)):
+            p2 = os.path.join(c.scratch, "confirm.json"); json.dump(hist, open(p2, "w"))
+            o3 = os.path.join(c.scratch, "confirm.ndjson")
+            c.run_driver(drv, ["replay", p2, o3])
+            evs = read_ndjson(o3)
+            n0 = c.cov["traces_validated_against_impl"]
+            again = c.validate("Trace_X03", evs, shards=1)
+            c.cov["traces_validated_against_impl"] = n0
+            if any(a[1][2:5] == t[2:5] for a in again): return True
+        return False
     c.triage(mism, classify, confirm, per_class=2, total=24)
 
     # ------------------------------------------------------------------ binding self-test
@@ -246,6 +275,9 @@ def run(c):
         e, k = pick(find("ExtendedProtocolConfigurationOptions.units"))
         for rs in (e["f"], e["g"]): rs[k]["v"][0]["id"] ^= 1
         tests.append((e, {("ExtendedProtocolConfigurationOptions.units", "wrong-value"), ("ExtendedProtocolConfigurationOptions.units", "contents-not-in-input")}, "a container identifier of the PCO list"))
+        e, k = pick(lambda e: next((i for i, w in enumerate(e["want"]) if w["a"] == "list" and w["n"] == "TAIList"), None) if e["op"] == "Built" else None)
+        e["want"][k]["v"][0]["tac"][-1] ^= 1
+        tests.append((e, {("TAIList.list", "built-differs")}, "a TAC digit of the TAI list handed to the real encoder"))
         e, k = pick(lambda e: 0 if e["msg"] in BOUND_MSGS and e["src"] == "sample" else None)
         e["ok"], e["msg"], e["f"], e["g"] = False, "", [], []
         tests.append((e, {("-", "rejects-inside-grammar")}, "an accepted message logged as refused"))
